@@ -17,28 +17,30 @@ theorem priv_lt {s : St} (hi : Inv s) {t : Tid} {m : Nat} (hp : privRec (BView (
   rw [this] at h1
   exact privLed_ne_none _ h1.symm
 
-theorem TR1_step {es : List (Tid × Ev)} {s s' : St} {t : Tid} {e : Ev} (hi' : Inv s') (hnd : inDtor (s.pc t) = false)
+theorem TR1_step {es : List (Tid × Ev)} {s s' : St} {t : Tid} {e : Ev} (hiv : Inv s) (hnd : inDtor (s.pc t) = false)
     (h : TR1 es s.nR) (hS : Step s t e s') : TR1 (es ++ [(t, e)]) s'.nR := by
   intro i u e' m hi hm
   rcases HB.lq_snoc hi with ⟨_, hi''⟩ | ⟨_, hp⟩
   · exact Nat.lt_of_lt_of_le (h i u e' m hi'' hm) (nR_mono hS hnd)
   · injection hp with h1 h2; subst h1; subst h2
-    exact priv_lt hi' (buildRec_priv (initR_facts hS hm).2)
+    exact Nat.lt_of_lt_of_le (priv_lt hiv (buildRec_priv (initR_facts hS hm).1)) (nR_mono hS hnd)
 
 theorem IP_step {es : List (Tid × Ev)} {s s' : St} {t : Tid} {e : Ev} (hnd : inDtor (s.pc t) = false)
     (h : IP es s) (hS : Step s t e s') : IP (es ++ [(t, e)]) s' := by
   intro i u e' m hi hm
-  rcases HB.lq_snoc hi with ⟨hil, hi''⟩ | ⟨_, hp⟩
+  rcases HB.lq_snoc hi with ⟨hil, hi''⟩ | ⟨hl, hp⟩
   · rcases h i u e' m hi'' hm with h1 | ⟨p, o, a, c, h1, h2⟩
     · by_cases hu : u = t
       · subst hu
         rcases build_step hS h1 with h3 | ⟨o, a, c, h3⟩
         · exact .inl h3
-        · subst h3; exact .inr ⟨es.length, o, a, c, hil, HB.lq_last _ _⟩
+        · subst h3; exact .inr ⟨es.length, o, a, c, Nat.le_of_lt hil, HB.lq_last _ _⟩
       · left; rw [pc_frame hS hnd hu]; exact h1
     · exact .inr ⟨p, o, a, c, h1, HB.lq_mono _ h2⟩
-  · injection hp with h1 h2; subst h1; subst h2
-    exact .inl (initR_facts hS hm).2
+  · injection hp with h1 h2; subst h1; subst h2; subst hl
+    rcases (initR_facts hS hm).2 with h3 | ⟨o, a, c, h3, _⟩
+    · exact .inl h3
+    · subst h3; exact .inr ⟨es.length, o, a, c, Nat.le_refl _, HB.lq_last _ _⟩
 
 theorem RP_gen {w : Ords} {sel : Bool} {es : List (Tid × Ev)} {s s' : St} {t : Tid} {e : Ev} (h : RP w sel es s)
     (hnew : ∀ m, e.initR = some m → ∀ u, privRec (BView (s'.pc u)) = some m → u = t)
@@ -61,9 +63,14 @@ theorem RP_step {w : Ords} {sel : Bool} {es : List (Tid × Ev)} {s s' : St} {t :
     (h : RP w sel es s) (hS : Step s t e s') : RP w sel (es ++ [(t, e)]) s' := by
   refine RP_gen h ?_ ?_
   · intro m hm u hu
-    have := hi'.b.privUq u t m
-    simp only [bview_vpc] at this
-    exact this hu (buildRec_priv (initR_facts hS hm).2)
+    rcases (initR_facts hS hm).2 with h3 | ⟨o, a, c, _, h3⟩
+    · have := hi'.b.privUq u t m
+      simp only [bview_vpc] at this
+      exact this hu (buildRec_priv h3)
+    · exfalso
+      have := (hi'.b.privOk u m (by simpa using hu)).1
+      simp only [bview_log] at this
+      rw [h3] at this; simp at this
   · intro u m hp
     by_cases hu : u = t
     · subst hu
@@ -122,7 +129,7 @@ theorem RK_step {w : Ords} (hw : w.OK) {sel : Bool} {es : List (Tid × Ev)} {s s
     (hi : Inv s) (hi' : Inv s') (hnd : inDtor (s.pc t) = false) (hscd : SCD es) (hIP : IP es s) (hP : RP w sel es s)
     (h : RK w sel es s) (hS : Step s t e s') : RK w sel (es ++ [(t, e)]) s' := by
   intro u b a hreg m hm i x ei hi2 hinit
-  rcases HB.lq_snoc hi2 with ⟨_, hi3⟩ | ⟨_, hq⟩
+  rcases HB.lq_snoc hi2 with ⟨_, hi3⟩ | ⟨hlen, hq⟩
   · rcases reg_cases hS hnd hreg with h1 | ⟨h1, o, y, c, h2, h3, h4, h5⟩
     · -- registered before: the set of older records has not grown
       have ho := hi.b.own1 u b a h1
@@ -143,16 +150,37 @@ theorem RK_step {w : Ords} (hw : w.OK) {sel : Bool} {es : List (Tid × Ev)} {s s
           simp only [bview_log] at this
           exact absurd hm this
         · rw [hbTrace_snoc]
-          exact .of_sw (.inr (po_hb h6 hi3 h7)) (sw_cas hw hscd.2.1 h7 (hscd.2.2 p x o2 a2 (some m) c2 h7) h3)
-  · -- the new event initialises a record that is still private
-    injection hq with h1 h2; subst h1; subst h2
-    exfalso
-    have hp := buildRec_priv (initR_facts hS hinit).2
-    have h3 := (hi'.b.privOk x m (by simpa using hp)).1
+          have hb : HBeq (hbTrace w sel es) i p := by
+            rcases Nat.lt_or_eq_of_le h6 with h8 | h8
+            · exact .inr (po_hb h8 hi3 h7)
+            · exact .inl h8
+          exact .of_sw hb (sw_cas hw hscd.2.1 h7 (hscd.2.2 p x o2 a2 (some m) c2 h7) h3)
+  · -- the new event initialises a record that is still private, or publishes it
+    injection hq with h1 h2; subst h1; subst h2; subst hlen
+    have hb1 := (initR_facts hS hinit).1
     have h4 := (hi'.b.own1 u b a hreg).1
-    simp only [bview_log] at h3 h4
-    rcases hm with hm | hm
-    · subst hm; exact h3 h4
-    · exact h3 (mem_of_mem_below hm)
+    simp only [bview_log] at h4
+    rcases (initR_facts hS hinit).2 with hb2 | ⟨o, y, c, _, hl⟩
+    · exfalso
+      have hp := buildRec_priv hb2
+      have h3 := (hi'.b.privOk x m (by simpa using hp)).1
+      simp only [bview_log] at h3
+      rcases hm with hm | hm
+      · subst hm; exact h3 h4
+      · exact h3 (mem_of_mem_below hm)
+    · by_cases hux : u = x
+      · subst hux; exact .self (hbTrace_get (HB.lq_last _ _))
+      · exfalso
+        have h3 := (hi.b.privOk x m (by simpa using buildRec_priv hb1)).1
+        simp only [bview_log] at h3
+        rcases reg_cases hS hnd hreg with h5 | ⟨h5, _⟩
+        · have h6 := (hi.b.own1 u b a h5).1
+          simp only [bview_log] at h6
+          have hma : m ≠ a := fun hc => h3 (hc ▸ h6)
+          rcases hm with hm | hm
+          · exact hma hm
+          · rw [hl, below_cons_ne _ hma] at hm
+            exact h3 (mem_of_mem_below hm)
+        · exact hux h5
 
 end ConcVerif.Rcu
